@@ -10,3 +10,13 @@ import "os"
 func verifSnapOpen(path string) (*verifFile, error) {
 	return verifOpenFile(path, os.O_RDWR|os.O_APPEND|os.O_CREATE, 0644)
 }
+
+// verifSnapRecover is the start-up recovery of NewSnapshotter (through the shim).
+func verifSnapRecover(path string) error {
+	if _, err := os.Stat(path); os.IsNotExist(err) {
+		if _, err := os.Stat(path + tmpExt); err == nil {
+			return verifRename(path+tmpExt, path)
+		}
+	}
+	return nil
+}
